@@ -396,9 +396,16 @@ def main():
         ok, blog, broken_files = lean_build(spec.LEAN_MODULES, spec.DRIVERS)
         audit, alog = (lean_audit(spec.LEAN_MODULES, spec.THEOREMS, prop) if ok else ({t: None for t in spec.THEOREMS}, ''))
         forb = lean_forbidden_scan()
+        recheck = None
+        if ok and tier == 'thorough':
+            # independent re-check of the compiled .olean files of the property's modules
+            rc_lc, out_lc = _lake(['env', 'leanchecker'] + list(spec.LEAN_MODULES), timeout=1800)
+            recheck = {'cmd': 'lake env leanchecker ' + ' '.join(spec.LEAN_MODULES), 'exit': rc_lc, 'tail': out_lc[-400:]}
+            if rc_lc != 0:
+                ok = False; blog = out_lc
         bad_ax = {t: ax for t, ax in audit.items() if ax is None or not set(ax) <= ALLOWED_AXIOMS}
         lean = {'ok': ok and not bad_ax and not forb, 'build_ok': ok, 'broken_files': broken_files,
-                'audit': audit, 'bad_axioms': bad_ax, 'forbidden': forb,
+                'audit': audit, 'bad_axioms': bad_ax, 'forbidden': forb, 'leanchecker': recheck,
                 'log_tail': (blog if not ok else alog)[-3000:] if (not ok or bad_ax) else ''}
     except subprocess.TimeoutExpired:
         print('lean build/audit timed out'); sys.exit(2)
@@ -455,7 +462,7 @@ def main():
         'input_distribution': dict(sorted(res['dist'].items())) if res else {},
         'exhaustive': bool(res and res['exhaustive'] and getattr(spec, 'EXHAUSTIVE', {}).get(tier, False)),
         'known_findings_hit': {k: v[1] for k, v in hits.items()},
-        'lean': {k: lean.get(k) for k in ('build_ok', 'broken_files', 'bad_axioms', 'forbidden')},
+        'lean': {k: lean.get(k) for k in ('build_ok', 'broken_files', 'bad_axioms', 'forbidden', 'leanchecker')},
         'partial': getattr(spec, 'PARTIAL', ''),
         'notes': (res['notes'][:20] if res else []),
     }
